@@ -139,7 +139,7 @@ def build_job(job):
 def run_job(job, tier, seed, timeout):
     t0 = time.time()
     d = os.path.dirname(job.binary)
-    out = os.path.join(d, "result.%s.%d.json" % (tier, os.getpid()))
+    out = os.path.join(d, "result.%s.%d.%d.json" % (tier, os.getpid(), id(job)))
     cmd = [job.binary, "--tier", tier, "--seed", str(seed), "--out", out] + job.run_args
     try:
         p = subprocess.run(cmd, stdout=subprocess.PIPE, stderr=subprocess.STDOUT, timeout=timeout)
@@ -164,7 +164,8 @@ def build_and_run(job, tier, seed, timeout, deadline):
     if time.time() > deadline:
         job.skipped = True
         return job
-    build_job(job)
+    if job.build_ok is None:
+        build_job(job)
     if not job.build_ok:
         return job
     if time.time() > deadline:
@@ -308,27 +309,45 @@ def run_check(pid, tier):
         return spec["custom"](pid, tier, seed, deadline)
 
     cfgs = spec["configs"](tier)
-    jobs = []
+    builds = []
     classes_info = []
     for tu in spec["tus"]:
         for part in P.TUS[tu]["parts"]:
             fam = P.PART_FAMILY[part]
             groups = class_groups(cfgs, fam)
             for rep, members in groups:
-                jobs.append(Job(pid, rep, tu, part, members))
+                xf = P.TUS[tu]["cfg_flags"](rep, tier) if "cfg_flags" in P.TUS[tu] else []
+                builds.append(Job(pid, rep, tu, part, members, extra_flags=xf))
             classes_info.append({"tu": tu, "part": part, "configs": len(cfgs), "classes": len(groups)})
-    # order: representative's position in the tier list (arm cover first), big parts first
+    log("[%s %s] %d configurations -> %d harness builds" % (pid, tier, len(cfgs), len(builds)))
+    timeout = int(os.environ.get("VERIF_JOB_TIMEOUT_S", 900 if tier == "quick" else 3000))
+    # phase 1: build every distinct harness once
+    def _b(j):
+        if time.time() > deadline:
+            j.skipped = True
+            return j
+        return build_job(j)
+    with cf.ThreadPoolExecutor(NCPU) as ex:
+        list(ex.map(_b, builds))
+    # phase 2: run, sharded where the TU asks for it (each shard explores a disjoint subset of (subject, operation) pairs)
+    jobs = []
+    for b in builds:
+        nsh = P.shards_for(b.tu, tier, b.part)
+        if b.skipped or not b.build_ok or nsh <= 1:
+            jobs.append(b)
+            continue
+        for k in range(nsh):
+            j = Job(pid, b.cfg, b.tu, b.part, b.members, b.extra_flags, ["--shard", "%d/%d" % (k, nsh)])
+            j.binary, j.build_log, j.build_ok, j.build_s = b.binary, b.build_log, True, (b.build_s if k == 0 else 0.0)
+            j.shard = k
+            jobs.append(j)
     if seed:
         import random
         random.Random(seed).shuffle(jobs)
-    log("[%s %s] %d configurations -> %d jobs" % (pid, tier, len(cfgs), len(jobs)))
-    timeout = int(os.environ.get("VERIF_JOB_TIMEOUT_S", 600 if tier == "quick" else 2400))
-    done = []
     with cf.ThreadPoolExecutor(NCPU) as ex:
         futs = [ex.submit(build_and_run, j, tier, seed, timeout, deadline) for j in jobs]
         for fu in cf.as_completed(futs):
-            j = fu.result()
-            done.append(j)
+            fu.result()
     return finish(pid, tier, seed, jobs, classes_info, t_start, deadline)
 
 
